@@ -11,10 +11,75 @@ RULE = ("seeded Metadata dictionaries over the documented kinds (numbers incl. n
         "30 % of the cases make one container OBJECT reachable by two paths (aliasing); distinct by recipe hash")
 
 
+def gen_append_case(r):
+    """several Metadata on a ROOT, written in two saves: the second (append / append-over) carries some entries the file has
+    and some it lacks, in any order — all must survive, each with the content the mode prescribes"""
+    names = r.sample(["m", "cal", "notes", "é", "with space", "a", "b2", "zz"], r.choice([2, 3, 4, 5]))
+    def content(tag):
+        return [[f"k{j}", gen.gen_md_value(r, 1, 2)] for j in range(r.choice([0, 1, 2]))] + [["tag", {"t": "str", "v": tag}]]
+    first = [[nm, content("first")] for nm in names[:r.randrange(0, len(names))]]
+    second_names = list(names)
+    r.shuffle(second_names)
+    second = [[nm, content("second")] for nm in second_names[:r.randrange(1, len(names) + 1)]]
+    return {"kind": "append", "first": first, "second": second, "mode": r.choice(["a", "+", "append", "ao", "appendover"]),
+            "under": r.choice(["root", "root", "node"])}
+
+
+def run_append(case):
+    import os
+    def build(entries):
+        root = emdfile.Root(name="r")
+        holder = root
+        if case["under"] == "node":
+            holder = emdfile.Node(name="n")
+            root.tree(holder)
+        for nm, items in entries:
+            holder.metadata = emdfile.Metadata(name=nm, data={k: gen.build_md_value(v) for k, v in items})
+        return root
+    def canon(entries):
+        return {nm: mdvals.canon_items([[k, mdvals.pv(gen.build_md_value(v))] for k, v in items]) for nm, items in entries}
+    p = common.fresh_path()
+    io = {"saves": [], "back": None}
+    try:
+        for entries, mode in ((case["first"], "w"), (case["second"], case["mode"])):
+            try:
+                with common.quiet():
+                    emdfile.save(p, build(entries), mode=mode)
+                io["saves"].append({"ok": True})
+            except Exception as e:
+                io["saves"].append(alpha.exc_kind(e))
+        try:
+            with common.quiet():
+                back = emdfile.read(p, emdpath="r" if case["under"] == "root" else "r/n", tree=False)
+            if case["under"] == "node" and back.name != "n":
+                back = back.tree("n")
+            io["back"] = {str(nm): mdvals.canon_items([[k, mdvals.pv(v)] for k, v in m._params.items()]) for nm, m in back.metadata.items()}
+        except Exception as e:
+            io["back"] = alpha.exc_kind(e)
+    finally:
+        if os.path.exists(p):
+            os.remove(p)
+    over = case["mode"] in ("ao", "appendover")
+    if case["under"] == "root":
+        # root Metadata follow the union rule per entry name
+        want = canon(case["first"])
+        for nm, v in canon(case["second"]).items():
+            if over or nm not in want:
+                want[nm] = v
+    else:
+        # an inner node that the file holds is left as it is by an append and replaced as a whole by an append-over
+        want = canon(case["second"]) if over else canon(case["first"])
+    io["want"] = want
+    return alpha.canon_obs(io)
+
+
 def cases(tier, seed):
     n = 300 if tier == "quick" else 6000
     for i in range(n):
         r = common.case_rng(seed, PID, i)
+        if i % 10 == 7:
+            yield gen_append_case(r)
+            continue
         used = set()
         items = [[gen.gen_name(r, used, odd=0.25), gen.gen_md_value(r, 0, r.choice([1, 2, 4]) if tier == "quick" else r.choice([2, 4, 7]))]
                  for _ in range(r.choice([1, 2, 4, 7]))]
@@ -48,6 +113,9 @@ def cases(tier, seed):
 
 
 def run_both(drv, case):
+    if case.get("kind") == "append":
+        io = run_append(case)
+        return io, (dict(io) if drv is not None else None)        # stated by the oracle; the append rule itself is modelled in C09
     share = {} if case.get("share") else None
     data = {k: gen.build_md_value(v, share) for k, v in case["items"]}
     md = emdfile.Metadata(name=case["name"], data=data)
@@ -81,6 +149,17 @@ def run_both(drv, case):
 
 
 def oracle(case, obs):
+    if case.get("kind") == "append":
+        if any(sv != {"ok": True} for sv in obs["saves"]):
+            return {"save_failed_for_documented_kinds": obs["saves"]}
+        if isinstance(obs["back"], dict) and "err" in obs["back"] and len(obs["back"]) == 1:
+            return {"read_failed": obs["back"]}
+        if obs["back"] != obs["want"]:
+            missing = sorted(set(obs["want"]) - set(obs["back"]))
+            extra = sorted(set(obs["back"]) - set(obs["want"]))
+            diff = sorted(k for k in obs["want"] if k in obs["back"] and obs["want"][k] != obs["back"][k])
+            return {"metadata_of_the_node_after_two_saves": {"missing": missing, "unexpected": extra, "different": diff}, "mode": case["mode"]}
+        return None
     if isinstance(obs["obj"], dict) and "err" in obs["obj"]:
         return {"save_failed_for_documented_kinds": obs["obj"]}
     if isinstance(obs["back"], dict) and "err" in obs["back"]:
@@ -103,10 +182,14 @@ def known_match(case, fail, finding):
 
 
 def nontrivial(case):
+    if case.get("kind") == "append":
+        return True
     return any(v["t"] in ("dict", "tuple", "list") for _, v in case["items"])
 
 
 def classify(case, obs):
+    if case.get("kind") == "append":
+        return ["two_saves_" + ("over" if case["mode"] in ("ao", "appendover") else "append") + "_" + case["under"]]
     out = []
     def walk(v):
         out.append("kind_" + v["t"])
